@@ -233,8 +233,12 @@ static econf_err pr_key_file(struct econf_file *key_file)
         const char *group = g == 0 ? NULL : groups[g-1];
 
         econf_error = econf_getKeys(key_file, group, &key_count, &keys);
-        if (econf_error == ECONF_NOKEY && group == NULL)
-            continue; /* all keys belong to a group */
+        if (econf_error == ECONF_NOKEY) {
+            /* all keys belong to a group or the group has no key */
+            if (group != NULL)
+                printf("%s\n\n", group);
+            continue;
+        }
         if (econf_error) {
 	    print_error(econf_error);
             econf_free(keys);
@@ -262,6 +266,8 @@ static econf_err pr_key_file(struct econf_file *key_file)
 		}
 		v++;
 	      }
+	      if (v == 0) /* key without value */
+		printf("\n");
 	      econf_freeExtValue(value);
 	    }
         }
